@@ -205,26 +205,45 @@ def rule_prim(ctx, rule, which=("prop", "detached")):
     if "detached" in which:
         ed = st.methods.get("execDetached")
         w = where(YS, "YowStack.execDetached", getattr(ed, "lineno", None))
-        ran = []
-        it = Interp(repo, {}, {}, hooks={})
-        o = Obj(st)
-        cb = ("closure", ast.parse("def cb():\n    return 1").body[0], {}, None, None)
-        it.hooks["closure_called"] = None
-        raised = None
+        from ..absint import enumerate_cells, Budget
+        fn_ast = ast.parse("def cb():\n    marker.ran()").body[0]
+
+        def run(cell, domains):
+            it = Interp(repo, cell, domains, hooks={})
+            o = Obj(st)
+            k_, init = repo.find_method(st, "__init__")
+            # fields the constructor sets to constants are taken from it (a flag such as `_looping = False`)
+            if init is not None:
+                for n_ in ast.walk(init):
+                    if isinstance(n_, ast.Assign) and len(n_.targets) == 1 and is_self_attr(n_.targets[0]) and isinstance(n_.value, ast.Constant):
+                        o.fields[n_.targets[0].attr] = ("c", n_.value.value)
+            res = {"raised": None}
+            try:
+                it.call_function(ed, st, ("obj", o), [("closure", fn_ast, {"marker": ("ext", "marker", [])}, None, None)], {}, depth=0)
+            except _Raise as r_:
+                res["raised"] = r_.text
+            res["effects"] = list(flat_effects(it.effects))
+            return res, it
         try:
-            # a callback that records being called: a closure whose body performs an observable external call
-            fn_ast = ast.parse("def cb():\n    marker.ran()").body[0]
-            env = {"marker": ("ext", "marker", [])}
-            it.call_function(ed, st, ("obj", o), [("closure", fn_ast, env, None, None)], {}, depth=0)
-        except _Raise as r_:
-            raised = r_.text
-        except Exception as e:
-            raised = "not evaluated (%s)" % type(e).__name__
-        ran = [e for e in flat_effects(it.effects) if e[0] == "CALL" and e[1] == "marker.ran"]
-        puts = [e for e in flat_effects(it.effects) if e[0] == "CALL" and e[1].endswith(".put")]
-        ctx.check(rule, raised is None and not ran and len(puts) == 1, w, "execDetached(fn) only queues fn",
-                  "execDetached %s: a detached event raised from inside a send would be handled on the sending thread, under the locks it holds" % ("runs the callback itself" if ran else ("does not queue it (%s)" % raised)),
-                  "queued for loop(), never run by the caller")
+            cells = enumerate_cells(run, {}, max_cells=50)
+        except Budget:
+            cells = None
+        if cells is None:
+            ctx.undecided(rule, w, "execDetached(fn) only queues fn", "not evaluated")
+        else:
+            bad = []
+            for cell, r in cells:
+                ran = [e for e in r["effects"] if e[0] == "CALL" and e[1] == "marker.ran"]
+                puts = [e for e in r["effects"] if e[0] == "CALL" and e[1].endswith(".put")]
+                if r["raised"]:
+                    bad.append("raises %s" % r["raised"][:50])
+                elif ran:
+                    bad.append("runs the callback itself%s" % (" when " + ", ".join("%s=%s" % (k[1] if k[0] == "F" else k, v) for k, v in cell.items()) if cell else ""))
+                elif len(puts) != 1:
+                    bad.append("does not queue the callback")
+            ctx.check(rule, not bad, w, "execDetached(fn) only queues fn",
+                      "execDetached %s: a detached event raised from inside a send is handled on the sending thread, under the locks it holds" % "; ".join(sorted(set(bad))[:2]),
+                      "queued for loop(), never run by the caller (%d cell(s))" % len(cells))
 
 
 def rule_state(ctx):
